@@ -198,7 +198,7 @@ fn tr_strat() -> BoxedStrategy<f64> {
 }
 /// (kind, u1, u2, u3, e) of refm::branch_quat
 fn quat_strat() -> BoxedStrategy<(u64, f64, f64, f64, f64)> {
-    (prop_oneof![4 => Just(0u64), 2 => Just(1u64), 1 => Just(2u64), 1 => Just(3u64), 1 => Just(4u64), 1 => Just(5u64)], 0.0f64..1.0, 0.0f64..1.0, 0.0f64..1.0, -9.0f64..-0.5).boxed()
+    (prop_oneof![4 => Just(0u64), 2 => Just(1u64), 1 => Just(2u64), 1 => Just(3u64), 1 => Just(4u64), 1 => Just(5u64), 1 => Just(6u64)], 0.0f64..1.0, 0.0f64..1.0, 0.0f64..1.0, -9.0f64..-0.5).boxed()
 }
 
 macro_rules! family {
@@ -249,7 +249,7 @@ macro_rules! family {
                 (sp, s)
             }
             fn quat(w: &[u64]) -> [T; 4] {
-                let q = refm::branch_quat(w[0].min(5), fin(w[1]), fin(w[2]), fin(w[3]), fin(w[4]));
+                let q = refm::branch_quat(w[0].min(6), fin(w[1]), fin(w[2]), fin(w[3]), fin(w[4]));
                 [T::from_f64(q[0]), T::from_f64(q[1]), T::from_f64(q[2]), T::from_f64(q[3])]
             }
             /// T * R * S: (value, sum |terms|) of the linear block for scale s and (stored) quaternion q
